@@ -1440,6 +1440,7 @@ func cleanNumberConditions(ncs *[]NumberCondition) bool {
 				f = -f
 			}
 			if f%commonFactor == 0 {
+				j++
 				continue
 			}
 			if commonFactor%f == 0 {
